@@ -6,7 +6,7 @@ import subprocess
 HOOK_COMMITS = ["581a990"]
 
 ENGINE_NOTE = ("real Controller.RunOnce (and everything below it, including the whole AWS provider) runs over a simulated Kubernetes API, "
-               "a stateful simulated AWS that records every argument, and virtual time (testing/synctest); NewController/NewClient/Builder.Build are mirrored by verif-tagged hooks")
+               "a stateful simulated AWS that records every argument, and virtual time (testing/synctest); NewController/Builder.Build are mirrored by verif-tagged hooks; NewClient's informer wiring and cmd/main.go's validation gate are executed by checks of their own (TestWiring*, TestC16Gate)")
 
 P = {
  "C01": ("exploration", "rapid state machine (histories) + journal monitor",
@@ -30,7 +30,7 @@ P = {
  "C07": ("exploration", "rapid state machine + journal monitor (set/order relations, exact remainder)",
          "Scale-up scans with tainted pools of every size and age order, failed untaints and same-scan force removals: no cloud increase while a reusable node stays tainted, newest first, and the requested increase equals need minus untainted measured against the simulated ASG's real desired capacity.",
          "4 C07"),
- "C08": ("exploration", "rapid state machine + pairwise order oracle",
+ "C08": ("exploration", "rapid state machine + pairwise order oracle; large-group variant; production-wiring round trip",
          "Scale-down scans over generated creation timestamps (ties, identical, reversed), list orders and failing writes: no node left untainted is strictly older than a tainted one, except nodes with a failed attempt.",
          "4 C08"),
  "C09": ("exploration", "rapid state machine + journal monitor + capacity gauge comparison + metamorphic twin run",
@@ -48,13 +48,13 @@ P = {
  "C13": ("exploration", "rapid generated pods/nodes with known exact rationals + permutation metamorphic relation",
          "Quantities are generated as (mantissa, suffix, decimals) so the exact value is known without asking resource.Quantity; totals are compared with math/big sums, percentages within 1e-12 relative, and every list is permuted (results must be identical). Request gauges are checked after engine scans too.",
          "4 C13"),
- "C14": ("exploration", "exhaustive small-scope enumeration + rapid deeper shapes against an independent predicate",
+ "C14": ("exploration", "exhaustive small-scope enumeration + rapid deeper shapes against an independent predicate + production-wiring round trip",
          "6 000+ pod shapes and 10 node label maps are enumerated completely through the exported filter constructors and the real filtered listers; deeper random shapes beyond. Exhaustive over the stated finite scope only.",
          "4 C14"),
  "C15": ("exploration", "rapid direct calls + history monitor comparing the PUT body with the stored object",
          "Arbitrary node objects, stale or fresh caller copies and injected GET/PUT failures: the object sent equals the stored one plus/minus exactly the escalator taint; an already tainted node is never re-stamped (direct and along histories).",
          "4 C15"),
- "C16": ("exploration", "exhaustive per-conjunct grids + rapid full-product sampling + YAML/JSON round trip + native fuzzing (thorough)",
+ "C16": ("exploration", "exhaustive per-conjunct grids + rapid full-product sampling + YAML/JSON round trip + generated files through the real cmd/main.go gate + native fuzzing (thorough)",
          "accepted => every invariant (each invariant evaluated independently of the validator); YAML-decoded = JSON-decoded = source for every documented key, documents larger than the sniff buffer included. Exhaustive over the stated grids only.",
          "4 C16"),
  "C17": ("exploration", "rapid direct calls on the real AWS provider + argument oracle",
